@@ -107,10 +107,6 @@ theorem array_rt (ar : Arith) (bt : Nat) (isBool : Bool) (scale offset : Nat) (u
     · simp [hl, h]
   rw [if_pos hc, hm]
 
-/-- what a value is expected to come back as: element by element -/
-def csvNorm (v : Value) : Value :=
-  if (elemsOf v).2 then packValues ((elemsOf v).1.map csvNormS) else csvNormS v
-
 /-- a decoded value (`valueOK`) — scalar, or non-empty array read as an array — survives the round trip through its cell -/
 theorem value_rt (ar : Arith) (bt : Nat) (isBool : Bool) (scale offset : Nat) (units : Txt) (v : Value)
     (h : valueOK bt isBool v = true) (hu : ¬(units = degreesTxt ∧ bt = btSint32))
@@ -214,13 +210,6 @@ theorem prefix_formatUnknown (n : Nat) : isPrefixOf' unknownTxt (formatUnknown n
   unfold isPrefixOf' formatUnknown
   simp [List.append_assoc, List.take_left']
 
-/-- no name of the reader's two tables starts with "unknown" (regenerated tables, kernel evaluation) -/
-def lookupNamesOK : Bool :=
-  fieldNumLookup.all (fun row => row.2.all fun p => !isPrefixOf' unknownTxt (txt p.1)) &&
-  mesgNumLookup.all (fun p => !isPrefixOf' unknownTxt (txt p.1))
-
-set_option maxRecDepth 100000 in
-theorem lookupNamesOK_true : lookupNamesOK = true := by decide +kernel
 
 theorem lookup_mem' {α β : Type} [BEq α] [LawfulBEq α] : ∀ (l : List (α × β)) (a : α) (b : β), l.lookup a = some b → (a, b) ∈ l :=
   lookup_mem
@@ -250,11 +239,6 @@ theorem lookupMesgNum_unknown (name : Txt) (h : isPrefixOf' unknownTxt name = tr
   have := ht.2 x hx
   rw [hxe, h] at this; cases this
 
-/-- the units cell of an unknown field names its base type, and the name maps back; none reads "degrees" -/
-def baseTypeNamesOK : Bool :=
-  baseTypeNames.all fun p => baseTypeFromName (baseTypeName p.1) == p.1 && baseTypeName p.1 != degreesTxt
-
-theorem baseTypeNamesOK_true : baseTypeNamesOK = true := by decide +kernel
 
 /-- **an unknown field survives the round trip with the verbose option**: written as `unknown(N)` with the base type's
 name in the units cell, read back as field N of that base type with its value (scalar, or an array of at least two
@@ -396,15 +380,6 @@ theorem dev_field_rt (ar : Arith) (o : Opts) (ds : List Desc) (mesgNum : Nat) (d
 
 /-! ### sub-field substitution and its reversal -/
 
-/-- regenerated tables: a sub-field name is never a name of the reader's field table for the message (so the cell becomes
-a placeholder), is non-empty and not "unknown…", and within a message a sub-field name belongs to one main field only -/
-def subNamesOK : Bool :=
-  profile.all fun m => m.num ≥ mfgRangeMin || m.fields.all fun p => p.subs.all fun s =>
-    (lookupFieldNum m.num (txt s.name)).isNone && !(txt s.name).isEmpty && !isPrefixOf' unknownTxt (txt s.name) &&
-    m.fields.all fun p' => p'.subs.all fun s' => !(txt s'.name == txt s.name) || decide (p' = p)
-
-set_option maxRecDepth 100000 in
-theorem subNamesOK_true : subNamesOK = true := by decide +kernel
 
 theorem sub_facts {m : PMesg} {p : PField} {s : PSub} (hm : m ∈ profile) (hn : m.num < mfgRangeMin) (hp : p ∈ m.fields)
     (hs : s ∈ p.subs) :
